@@ -653,6 +653,8 @@ class ArrInterp(ResultInterp):
             return Sym("ext:numpy.ndarray")  # the inputs are plain ndarrays (subclasses: fallback paths)
         if name == "int" and len(args) == 1 and isinstance(args[0], LabelKeys) and not isinstance(args[0].value, (list, tuple)):
             return args[0].plain()  # the python value of a label scalar (still marked if it went through a cast)
+        if name == "int" and args and isinstance(args[0], Reduction):
+            return args[0]  # a count as a python int is still that count: decided only where it is tested
         if name in ("int", "bool") and args and isinstance(args[0], (EmptyTest, Reduction)):
             t = self.truth(args[0], node)
             return int(t) if name == "int" else t
